@@ -11,6 +11,8 @@ def program(a):
     quals = ("unsafe " if a["m_unsafe"] else "") + (f'extern "{a["m_abi"]}" ' if a["m_abi"] else "")
     R = "()" if a["m_unit"] else "u64"
     ty = f"{quals}fn(u64, u64) -> {R}"
+    qualsq = ("" if a["m_unsafe"] else "unsafe ") + (f'extern "{a["m_abi"]}" ' if a["m_abi"] else "")       # the same type with `unsafe` flipped
+    tyq = f"{qualsq}fn(u64, u64) -> {R}"
     opts = []
     # in the arms for `unsafe fn` the user's fragments land in the body of an unsafe fn: operations that need an unsafe context (here: reading
     # through a raw pointer) are well-typed there without a block of their own (edition 2021)
@@ -63,14 +65,26 @@ static CLOCK: AtomicUsize = AtomicUsize::new(0);
 static A_STAMP: AtomicUsize = AtomicUsize::new(0);
 static R_STAMP: AtomicUsize = AtomicUsize::new(0);
 #[inline(never)] {quals}fn target(a: u64, b: u64) -> {R} {body}
+#[inline(never)] {qualsq}fn target_q(a: u64, b: u64) -> {R} {body}
 fn call(a: u64) -> {R} {{ let f: {ty} = std::hint::black_box(target); {call} }}
-fn class(m: &str) -> &'static str {{ if m.contains("more times than expected") {{ "over" }} else if m.contains("unexpected arguments") {{ "args" }} else if m.contains("was expected to be called") {{ "count" }} else {{ "other" }} }}
+fn class(m: &str) -> &'static str {{ if m.contains("Signature mismatch") {{ "sig" }} else if m.contains("more times than expected") {{ "over" }} else if m.contains("unexpected arguments") {{ "args" }} else if m.contains("was expected to be called") {{ "count" }} else {{ "other" }} }}
 fn msg(e: &Box<dyn std::any::Any + Send>) -> String {{ e.downcast_ref::<String>().cloned().or_else(|| e.downcast_ref::<&str>().map(|s| s.to_string())).unwrap_or_default() }}
 fn main() {{
     std::panic::set_hook(Box::new(|_| {{}}));
     let script = [{", ".join(str(x) + "u64" for x in SCRIPT)}];
     // the SAME fake! expression is evaluated in two consecutive lifetimes driven by the same script: the second must behave as the first
     // (the budget is whole again, whatever the first lifetime's count was); its lines are prefixed with R2
+    // the gate, arm by arm: the pointer this arm produces must carry the type the user wrote.  A target that differs from it ONLY in `unsafe`
+    // must be refused with a signature mismatch (and the identical one below accepted)
+    {{
+        let r = catch_unwind(AssertUnwindSafe(|| {{
+            let mut i2 = InjectorPP::new();
+            i2.when_called(injectorpp::func!(target_q, {tyq})).will_execute(injectorpp::fake!(
+                func_type: {quals}fn(a: u64, b: u64) -> {R}{optstr}
+            ));
+        }}));
+        println!("GATE {{}}", match r {{ Ok(()) => "accepted".to_string(), Err(e) => class(&msg(&e)).to_string() }});
+    }}
     for round in 0..2 {{
     let pfx = if round == 0 {{ "" }} else {{ "R2" }};
     let mut inj = InjectorPP::new();
